@@ -58,7 +58,7 @@ def numeric_ref(t):
     return '&#' + body + (';' if not t.chance(30) else '')
 
 
-INLINE += ['</pre></div>', '<div class="highlight"><pre>', '\u0663.', '\u0967)', '\uff11.', '</body>', '<body>', '</html>', '<head>', '</script>', '<title>', 'a\tb', 'foo\tbar', 'x\t', 'a>\tb', 'q>\t', '&#1114111;', '&#1114112;', '&#x10FFFF;', '&#x110000;', '&#xD800;', '&#9999999;', '&#xFFFFFF;', '&#128;', '&#x80;', '\x00', '\ufeff']
+INLINE += ['\\begin{equation}', '\\end{equation}', '\\begin{align*}', '\\(', '\\[', 'data:image/png;base64,', '</pre></div>', '<div class="highlight"><pre>', '\u0663.', '\u0967)', '\uff11.', '</body>', '<body>', '</html>', '<head>', '</script>', '<title>', 'a\tb', 'foo\tbar', 'x\t', 'a>\tb', 'q>\t', '&#1114111;', '&#1114112;', '&#x10FFFF;', '&#x110000;', '&#xD800;', '&#9999999;', '&#xFFFFFF;', '&#128;', '&#x80;', '\x00', '\ufeff']
 
 
 def line_doc(t, max_lines=14):
@@ -86,6 +86,7 @@ def line_doc(t, max_lines=14):
 
 
 EXTRA = [
+    '\\begin{align}\na *b* c &= d\n\\end{align}\n', 'inline \\begin{x}y\\end{x} and \\(z\\)\n',
     '<div><pre>x\n</pre></div>\n\n<span>y</span>\n', '<!-- </pre></div>\n\n<x -->\n\ntext\n', '<script>\na = "</pre></div>"\n\n< b\n</script>\n',
     '| a | b |\n|---|---|\n| c | d |\n',
     '| left | center | right |\n|:-----|:------:|------:|\n| *1* | `2` | [3](u) |\n| 4 | 5 |\n',
@@ -184,7 +185,8 @@ def pumped(t, max_len=4096):
     return pre + unit * n + suf
 
 
-_NEST_MARKERS = [['-', '*'], ['-'], ['*', '+', '-'], ['1.', '1)'], ['1.'], ['>'], ['-', '1.'], ['>', '-'], ['> -', '> *']]
+_NEST_MARKERS = [['-', '*'], ['-'], ['*', '+', '-'], ['1.', '1)'], ['1.'], ['>'], ['-', '1.'], ['>', '-'], ['> -', '> *'],
+                 ['2.'], ['7)', '3.'], ['10.'], ['0.'], ['1.', '2.', '-']]       # ordered lists that do not start at 1
 _NEST_INNER = ['a', '- a', '* a', '1. a', '> a', '- - a', '```', '# a', 'a\n', '[a]: b', '| a |']
 
 
